@@ -148,7 +148,9 @@ func c08R1(c *Ctx, rule string) {
 					})
 			}
 			if name == "(*Raft).leaderLoop" {
-				rangeBodyAlways(c, rule, fn, "leaderLoop:step-down-loop-answers-every-future", "phi(append(↺, new([1]*logFuture)#2[:]) | new([1]*logFuture)#1[:])", func(in ssa.Instruction) bool {
+				rangeBodyAlwaysM(c, rule, fn, "leaderLoop:step-down-loop-answers-every-future", "the batch gathered from applyCh", func(d string) bool {
+					return strings.HasPrefix(d, "phi(append(") && strings.Contains(d, "new([1]*logFuture)")
+				}, func(in ssa.Instruction) bool {
 					cc := engine.CallCommonOf(in)
 					return cc != nil && c.P.CalleeName(cc) == "(*deferError).respond" && c.P.Arg(in, 0) == "@ErrNotLeader"
 				}, "while stepping down every batched future is answered ErrNotLeader")
